@@ -15,7 +15,7 @@ func init() {
 	register(&propDef{
 		ID: "C16",
 		Meta: propMeta{
-			Explanation: "Decides the structural mechanisms that make re-encoding lossless: (R16a) type shape — ContentInfo and SignerInfo capture their original encoding in a leading asn1.RawContent field, certificates, attribute values and issuer names are asn1.RawValue, marshalCertificates fills FullBytes from cert.Raw (removing any of these makes encoding/asn1 re-encode signed parts); (R16b) signed attributes are digested in the encoding that is emitted: the verifier hashes AuthenticatedAttributesBytes(), which returns the re-marshalled list only when no raw content was captured and otherwise re-tags the original bytes; the builder hashes and emits the same attribute list; (R16c) content-type and message-digest are added exactly once, only by SignatureBuilder.Sign under `authAttrs != nil`, with the builder's content type and digest; no other code adds those OIDs; no function calls Sign() twice on one builder or in a loop; (R16d) every SignatureBuilder.Sign result flows into pkcs9.TimestampAndMarshal, which self-checks (SignedData.Verify + VerifyOptionalTimestamp) before marshalling and returns the marshalled bytes of that same structure; (R16e) in lib/pkcs7 and lib/pkcs9 no failure branch of asn1.Marshal/Unmarshal reaches a nil-error return (one unreachable site noted); (R16f) Detach replaces the content by a content-less ContentInfo of the same type. (R16h) SignedData.CRLs keeps each CRL's signed part raw (asn1.RawValue or a tbsCertList with a leading RawContent); NewContentInfo records the content type it was asked for on every path; no parsed structure that is returned aliases a buffer that goes back into a sync.Pool. (R16g) a ContentInfo handed to the builder is stored, digested and emitted as it is. (R16i) no function writes a field of a SignedData, ContentInfoSignedData, ContentInfo or SignerInfo that it did not build itself (one reached from a parameter, a copy of a by-value parameter, a call result or a package variable), the unsigned attributes excepted, other than ContentInfoSignedData.Detach: getters and helpers on the way to embedding leave a received token exactly as it was parsed. (R16k) wherever the result of the builtin copy is used, the function compares it (or a sum it enters) with the length of the copy's source, or the copy sits in a loop, or keeps the rest of the source (Read / ReadAt / Write methods, which report a partial transfer by contract, are not judged): an encoded structure is never cut off to the room that was left without that being noticed. (R16j) the asn1 tags of pkcs7.SignedData.Certificates and CRLs carry no `set`: encoding/asn1 would otherwise sort the lists on every Marshal and a parsed structure would be re-emitted in another order.",
+			Explanation: "Decides the structural mechanisms that make re-encoding lossless: (R16a) type shape — ContentInfo and SignerInfo capture their original encoding in a leading asn1.RawContent field, certificates, attribute values and issuer names are asn1.RawValue, marshalCertificates fills FullBytes from cert.Raw (removing any of these makes encoding/asn1 re-encode signed parts); (R16b) signed attributes are digested in the encoding that is emitted: the verifier hashes AuthenticatedAttributesBytes(), which returns the re-marshalled list only when no raw content was captured and otherwise re-tags the original bytes; the builder hashes and emits the same attribute list; (R16c) content-type and message-digest are added exactly once, only by SignatureBuilder.Sign under `authAttrs != nil`, with the builder's content type and digest; no other code adds those OIDs; no function calls Sign() twice on one builder or in a loop; (R16d) every SignatureBuilder.Sign result flows into pkcs9.TimestampAndMarshal, which self-checks (SignedData.Verify + VerifyOptionalTimestamp) before marshalling and returns the marshalled bytes of that same structure; (R16e) in lib/pkcs7 and lib/pkcs9 no failure branch of asn1.Marshal/Unmarshal reaches a nil-error return (one unreachable site noted); (R16f) Detach replaces the content by a content-less ContentInfo of the same type. (R16h) SignedData.CRLs keeps each CRL's signed part raw (asn1.RawValue or a tbsCertList with a leading RawContent); NewContentInfo records the content type it was asked for on every path; no parsed structure that is returned aliases a buffer that goes back into a sync.Pool. (R16g) a ContentInfo handed to the builder is stored, digested and emitted as it is. (R16i) no function writes a field of a SignedData, ContentInfoSignedData, ContentInfo or SignerInfo that it did not build itself (one reached from a parameter, a copy of a by-value parameter, a call result or a package variable), the unsigned attributes excepted, other than ContentInfoSignedData.Detach: getters and helpers on the way to embedding leave a received token exactly as it was parsed. (R16m) each of the six callers of TimestampAndMarshal passes the constant Authenticode switch its format requires (true for lib/authenticode and the catalog signer, false for the CMS formats), whether the switch is a positional argument or a field of a parameter struct (a field left out is false): the token lands under the attribute OID the format's other consumers read; (R16n) no function of lib/pkcs7 or lib/pkcs9 hands a slice it did not make itself to a library routine that edits in place (slices.Delete/DeleteFunc/Compact/Reverse/Sort/Insert/Replace, sort.Slice/Sort): parsing or verifying a decoded structure leaves its lists as decoded (zero instances today, positive control testdata/ctl/inplace); (R16k) wherever the result of the builtin copy is used, the function compares it (or a sum it enters) with the length of the copy's source, or the copy sits in a loop, or keeps the rest of the source (Read / ReadAt / Write methods, which report a partial transfer by contract, are not judged): an encoded structure is never cut off to the room that was left without that being noticed. (R16j) the asn1 tags of pkcs7.SignedData.Certificates and CRLs carry no `set`: encoding/asn1 would otherwise sort the lists on every Marshal and a parsed structure would be re-emitted in another order.",
 			NotDecided:  "byte identity of Marshal(Unmarshal(x)) on concrete values (a property of encoding/asn1 on data), BER quirks of third-party tokens.",
 			Assumptions: []string{"encoding/asn1 writes RawContent / RawValue.FullBytes verbatim"},
 		},
@@ -704,6 +704,15 @@ var c16Writers = map[string]string{
 func c16WhoWrites(c *Ctx) {
 	p := c.P
 	c.Rule("R16i", "a received or parsed SignedData / ContentInfo / SignerInfo is written to only by Detach; everything else builds fresh values", 1)
+	c.Rule("R16m", "every caller of TimestampAndMarshal passes the Authenticode switch its format requires (a field left out of a parameter struct is false)", 6)
+	for _, f := range tokenAttachedUnderTheFormatsOID(p) {
+		c.Check(f.OK, "R16m", f.Key, f.Pos, "", f.Detail)
+	}
+	c.Rule("R16n", "in lib/pkcs7 and lib/pkcs9 a library routine that edits a slice in place is given only a slice the function made itself", 0)
+	for _, f := range decodedListsNotEditedInPlace(p) {
+		c.Check(f.OK, "R16n", f.Key, f.Pos, "", f.Detail)
+	}
+	c.runControl("R16n in-place edit of a caller's list control (ctl/inplace.Valid)", "inplace.Raw).Valid in-place", decodedListsNotEditedInPlace)
 	c.Rule("R16k", "where the count copy() returns is used it is compared with the length of the source (module-wide)", 0)
 	for _, f := range copyCountsNotTrusted(c.P) {
 		c.Check(f.OK, "R16k", f.Key, f.Pos, "", f.Detail)
